@@ -83,6 +83,9 @@ def main():
             if not os.path.exists(os.path.join(d, "meta.json")):
                 continue
             meta = json.load(open(os.path.join(d, "meta.json")))
+            if meta.get("retired"):
+                print(f"RETIRED        {os.path.relpath(d, VERIF)} (see meta.json: retired_reason)", flush=True)
+                continue
             # the check that is expected to see the change: the property the author named, unless the confirmation run
             # recorded another one (meta["checked_by"]) because the named property's domain does not contain the trigger
             items.append((os.path.join(d, "patch.diff"), meta.get("checked_by", meta["property"])))
